@@ -430,7 +430,7 @@ class SymPattern:
         c = s.const()
         if c is not None:
             return [SymStr.of(x) for x in self.rx.split(c, maxsplit)]
-        if maxsplit != 0 or self.groups:
+        if self.groups or not isinstance(maxsplit, int) or maxsplit < 0:
             # not modelled: concretise (forks over the feasible values; normally
             # the path condition already determines the text)
             return [SymStr.of(x) if isinstance(x, str) else x for x in self.rx.split(s.concretize(), maxsplit)]
@@ -462,6 +462,13 @@ class SymPattern:
         cnt = [z3.IntVal(0)]
         for i in range(cap):
             cnt.append(cnt[-1] + z3.If(sepstart[i], 1, 0))
+        if maxsplit > 0:
+            # only the first `maxsplit` separators split; the rest stays in the last piece
+            sepstart = [z3.And(sepstart[i], cnt[i] < maxsplit) for i in range(cap)]
+            Kmax = min(Kmax, maxsplit)
+            cnt = [z3.IntVal(0)]
+            for i in range(cap):
+                cnt.append(cnt[-1] + z3.If(sepstart[i], 1, 0))
         nsep = cnt[cap]
         pieces = []
         start = z3.IntVal(0)
